@@ -76,6 +76,7 @@ import (
 
 	tmed "github.com/tendermint/tendermint/crypto/ed25519"
 	tmmath "github.com/tendermint/tendermint/libs/math"
+	tmproto "github.com/tendermint/tendermint/proto/tendermint/types"
 	"github.com/tendermint/tendermint/types"
 
 	"verif/ref"
@@ -553,6 +554,10 @@ type variant struct {
 	vals    *types.ValidatorSet // by-index entry points
 	tvals   *types.ValidatorSet // trusting entry point
 	keyOf   []int               // pool key of slot owner (follows list surgery; -1 = none)
+
+	// wire mode (wire.go): vals / tvals are decoder output; the reference tallies on these plain-data views instead
+	ovals, otvals *types.ValidatorSet
+	wireVP        *tmproto.ValidatorSet // the forged message vals was decoded from
 	tl      tmmath.Fraction
 }
 
@@ -1136,6 +1141,9 @@ func (g *gen) witness(b *base, vi int, v *variant, extra map[string]interface{})
 	if v.tvals != v.vals {
 		w["trusting_validators"] = valsJ(v.tvals)
 	}
+	if v.wireVP != nil {
+		w["validators_decoded_from_forged_message"] = forgedJ(v.wireVP)
+	}
 	for k, x := range extra {
 		w[k] = x
 	}
@@ -1169,7 +1177,16 @@ func (g *gen) evaluate(b *base, vi int, v *variant, cache *ref.SigCache, st stat
 	}
 
 	// ---- by index: VerifyCommit / VerifyCommitLight
-	tr := ref.TallyCommitCached(cache, v.chainID, v.vals, v.blockID, v.height, v.commit)
+	ov, otv := v.vals, v.tvals
+	if v.ovals != nil {
+		ov = v.ovals
+		st["variants.vals-decoded-from-forged-wire-message"]++
+	}
+	if v.otvals != nil {
+		otv = v.otvals
+		st["variants.tvals-decoded-from-forged-wire-message"]++
+	}
+	tr := ref.TallyCommitCached(cache, v.chainID, ov, v.blockID, v.height, v.commit)
 	want := tr.OK()
 	fullOK, fullDesc, fullPanic := call(func() error { return v.vals.VerifyCommit(v.chainID, v.blockID, v.height, v.commit) })
 	lightOK, lightDesc, lightPanic := call(func() error { return v.vals.VerifyCommitLight(v.chainID, v.blockID, v.height, v.commit) })
@@ -1230,7 +1247,7 @@ func (g *gen) evaluate(b *base, vi int, v *variant, cache *ref.SigCache, st stat
 	}
 
 	// ---- by address: VerifyCommitLightTrusting
-	tt := ref.TallyCommitTrustingDetail(cache, v.chainID, v.tvals, v.commit)
+	tt := ref.TallyCommitTrustingDetail(cache, v.chainID, otv, v.commit)
 	num, den := v.tl.Numerator, v.tl.Denominator
 	twant := ref.FractionExceeded(tt.ForBlock, tt.Total, num, den)
 	trustOK, trustDesc, trustPanic := call(func() error { return v.tvals.VerifyCommitLightTrusting(v.chainID, v.commit, v.tl) })
@@ -1350,6 +1367,9 @@ func (g *gen) runBase(idx int, st stats) {
 				}
 			}
 		}
+		if wr := g.c.Rand("wire", idx*variantsPer+vi); wr.Intn(4) == 0 {
+			g.applyWire(wr, b, vi, v, st)
+		}
 		g.evaluate(b, vi, v, cache, st)
 	}
 }
@@ -1450,7 +1470,9 @@ func Run(c *verdict.Ctx) int {
 		"VerifyCommitLightTrusting.accept=true", "VerifyCommitLightTrusting.accept=false", "oracle.byindex.accept.all-valid", "oracle.byindex.reject.tally",
 		"relabel/VerifyCommit.accept=true", "relabel/VerifyCommit.accept=false", "relabel/VerifyCommitLightTrusting.accept=true", "relabel/VerifyCommitLightTrusting.accept=false",
 		"relabel/other-message-power.>2/3", "relabel/other-message-power.(1/3,2/3]", "relabel/light.VerifyAdjacent.accept=true", "relabel/light.VerifyAdjacent.accept=false",
-		"relabel/light.VerifyNonAdjacent.accept=true", "relabel/light.VerifyNonAdjacent.accept=false", "relabel/signbytes.by-hand==marshaller"} {
+		"relabel/light.VerifyNonAdjacent.accept=true", "relabel/light.VerifyNonAdjacent.accept=false", "relabel/signbytes.by-hand==marshaller",
+		"wire.ValidatorSetFromProto.accepted", "wire.ValidatorSetFromProto.rejected", "wire.total-checked", "variants.vals-decoded-from-forged-wire-message",
+		"variants.tvals-decoded-from-forged-wire-message", "relabel/wire.LightBlockFromProto.accepted"} {
 		if merged[k] == 0 {
 			c.HarnessError("nothing observed for %q", k)
 		}
